@@ -618,7 +618,8 @@ def process(ctx, batch, configs, values, stats, known, recs=None):
             if attributed is None and "K02h" in known and only_dump_differs(ra, rb):
                 attributed = "K02h"
             if attributed is None and "K02f" in known and assigned_parameter_called(pieces[: j + 1]) and \
-                    first_difference(recs, i, j + 1, [n for n in names if n[IDX_INLINE_RECURSIVE] == "0"]) is None:
+                    first_difference(recs, i, j + 1, [n for n in names if n[IDX_INLINE_RECURSIVE] == "0" and n[IDX_INLINE] == "0"]) is None:
+                # only the extra inlining passes (STEEL_INLINE: second pass, STEEL_INLINE_RECURSIVE) change the result
                 attributed = "K02f"
             if attributed is None and jit_split and "K02g" in known and operand_assigned_later(item_text(batch, i)):
                 attributed = "K02g"
